@@ -152,11 +152,18 @@ type Exec struct {
 	// share record and the delegations are orphaned (listed finding F-C05d). Share accounting of
 	// such a pair is not judged afterwards (counted).
 	RemovedWithStake map[string]bool
-	Twin             *Exec
-	TwinRes          *Res
-	ExportA          []byte   // export of the original at the fork
-	ExportB          []byte   // export of the re-imported twin at the fork
-	ErrLogs          []ErrLog // Error-level log lines (x/staking logs swallowed hook errors)
+	// OverdrawnSeen: denoms whose recorded staked total has been negative by no more than the
+	// number of successful undelegations since the asset's shares were last reset: every position
+	// may withdraw floor(value + 0.01) from 18-digit rounded ratios, up to nearly one unit more
+	// than it is worth, so full exits of every position can add up to more than the total (listed
+	// finding F-C04a, over-withdrawal clause). UndelCount feeds that budget.
+	OverdrawnSeen map[string]bool
+	UndelCount    map[string]int
+	Twin          *Exec
+	TwinRes       *Res
+	ExportA       []byte   // export of the original at the fork
+	ExportB       []byte   // export of the re-imported twin at the fork
+	ErrLogs       []ErrLog // Error-level log lines (x/staking logs swallowed hook errors)
 
 	Oracles []Oracle
 	// OnRejected, when set, is called with the transaction's branch context after a message
@@ -204,7 +211,7 @@ func NewExec(w *World, oracles ...Oracle) *Exec {
 // over-reported by far more than a unit and over-withdrawn (listed finding F-C04a and its
 // consequences).
 func (x *Exec) PrecisionCollapsed(denom string) bool {
-	if x.OwnerlessSeen[denom] {
+	if x.OwnerlessSeen[denom] || x.OverdrawnSeen[denom] {
 		return true
 	}
 	a := x.AmpSeen[denom]
